@@ -922,13 +922,16 @@ Section SimplifySound.
       + eapply rw_trans; [apply rw_prefix; eassumption | apply A_neg_neg].
   Qed.
 
-  Lemma with_cache_ok body : simp_ok body -> simp_ok (Simplify.with_cache C ceqb body).
+  Lemma with_cache_ok body : simp_ok body -> simp_ok (Simplify.with_cache C cpi ceqb body).
   Proof.
     intros Hb s e r s' H Hc. unfold Simplify.with_cache in H.
     destruct (Simplify.lookup C ceqb (cache s) e) as [r0|] eqn:El.
     - injection H as <- <-. apply fin_same; [assumption |]. apply Hc, lookup_sound, El.
     - destruct (body s e) as [r1 s1] eqn:Eb. injection H as <- <-.
-      destruct (Hb _ _ _ _ Eb Hc) as (Hr & Hc1 & Hi). cbn [cache hits].
+      destruct (Hb _ _ _ _ Eb Hc) as (Hr0 & Hc1 & Hi). cbn [cache hits].
+      assert (Hr : rw (hits s1) e (Simplify.no_bare_pi C cpi r1)).
+      { eapply rw_trans; [exact Hr0 |]. destruct r1; cbn [Simplify.no_bare_pi]; try apply rw_refl.
+        apply A_pi. }
       repeat split; [exact Hr | | exact Hi].
       intros k v Hin. cbn [cache hits] in *. destruct Hin as [Hin|Hin].
       + injection Hin as <- <-. exact Hr.
@@ -962,7 +965,7 @@ Section SimplifySound.
     - assert (H0 : simp_ok (simplify 0)) by (apply with_cache_ok, body_zero_ok).
       split; [exact H0 |]. cbn [Simplify.simplify]. apply with_cache_ok, body_pos_ok; exact H0.
     - split; [exact IH1 |].
-      change (simp_ok (Simplify.with_cache C ceqb
+      change (simp_ok (Simplify.with_cache C cpi ceqb
                 (Simplify.body_pos C c0 c1 ctwo cpi cnan copp cfun cop is_zero is_one ceqb
                    (simplify (S n)) (simplify n)))).
       apply with_cache_ok, body_pos_ok; assumption.
@@ -1099,13 +1102,16 @@ Section SimplifySound.
   Qed.
 
   Lemma with_cache_pfd n body : simp_ok body -> simp_pfd n body ->
-                                simp_pfd n (Simplify.with_cache C ceqb body).
+                                simp_pfd n (Simplify.with_cache C cpi ceqb body).
   Proof.
     intros Hok Hb s e r s' H Hc Hp Hd. unfold Simplify.with_cache in H.
     destruct (Simplify.lookup C ceqb (cache s) e) as [r0|] eqn:El.
     - injection H as <- <-. split; [| exact Hp]. eapply Hp, lookup_sound, El.
     - destruct (body s e) as [r1 s1] eqn:Eb. injection H as <- <-.
-      destruct (Hb _ _ _ _ Eb Hc Hp Hd) as (Hq & Hp1). split; [exact Hq |].
+      destruct (Hb _ _ _ _ Eb Hc Hp Hd) as (Hq0 & Hp1).
+      assert (Hq : has_pi (Simplify.no_bare_pi C cpi r1) = false)
+        by (destruct r1; cbn [Simplify.no_bare_pi has_pi] in *; congruence).
+      split; [exact Hq |].
       intros k v Hin. cbn [cache] in Hin. destruct Hin as [Hin|Hin].
       + injection Hin as <- <-. exact Hq.
       + eapply Hp1. exact Hin.
@@ -1175,7 +1181,7 @@ Section SimplifySound.
       + apply body_pos_ok; apply (simplify_ok 0).
       + apply body_pos_pfd; try apply (simplify_ok 0); [exact H0 | eapply simp_pfd_pf; exact H0].
     - split; [exact IH1 |].
-      change (simp_pfd (S (S n)) (Simplify.with_cache C ceqb
+      change (simp_pfd (S (S n)) (Simplify.with_cache C cpi ceqb
                 (Simplify.body_pos C c0 c1 ctwo cpi cnan copp cfun cop is_zero is_one ceqb
                    (simplify (S n)) (simplify n)))).
       apply with_cache_pfd.
@@ -1193,6 +1199,15 @@ Section SimplifySound.
     - intros k v Hin. destruct Hin.
     - left. exact Hd.
     - exact Hq.
+  Qed.
+
+  (** Since fix 7232075: the result is never the bare symbol pi, whatever the depth. *)
+  Theorem simplify_never_bare_pi : forall e, run e <> Pi.
+  Proof.
+    intro e. unfold Simplify.run, Simplify.run_st, LIMIT. cbn [Simplify.simplify].
+    unfold Simplify.with_cache at 1. cbn [cache st_empty Simplify.lookup].
+    match goal with |- context [let '(r0, s') := ?b in _] => destruct b as [r0 s'] end.
+    cbn [fst]. destruct r0; cbn [Simplify.no_bare_pi]; discriminate.
   Qed.
 End SimplifySound.
 
@@ -1265,6 +1280,14 @@ Proof.
   exact (simplify_no_new_names (fm_C F) (fm_0 F) (fm_1 F) (fm_add F) (fm_opp F) (fm_pi F) (fm_nan F)
            (fm_fun F) (fm_cop F) (fm_is_zero F) (fm_is_one F) (fm_ceqb F) (fm_C F) (fm_ceqb_sound F)
            (fun _ => None) (fun _ => None) e).
+Qed.
+
+Lemma fm_never_bare_pi :
+  forall (F : field_model) (e : expr (fm_C F)), fm_run F e <> Pi.
+Proof.
+  intros F e.
+  exact (simplify_never_bare_pi (fm_C F) (fm_0 F) (fm_1 F) (fm_add F) (fm_opp F) (fm_pi F) (fm_nan F)
+           (fm_fun F) (fm_cop F) (fm_is_zero F) (fm_is_one F) (fm_ceqb F) e).
 Qed.
 
 Lemma fm_pi_free :
